@@ -34,12 +34,13 @@ def run(tier):
         vlib.require_tlc_ok(r, "Ipa")
         mc_stats.append((cfg, r["distinct"], r["generated"]))
     log(f"[C20] Ipa model: {mc_stats}")
-    archs = ["poseidon", "poseidon_sha256", "poseidon_secp256k1", "poseidon_jubjub", "poseidon_jubjub_p3", "agg_test"]
+    # ("plain": an inner relation without the Poseidon chip, i.e. without any additive-selector argument)
+    archs = ["poseidon", "poseidon_sha256", "poseidon_secp256k1", "poseidon_jubjub", "poseidon_jubjub_p3", "agg_test", "plain", "plain_sha256"]
     scen = []
     if tier == "quick":
         # boundary class: the IPA vector (nb x proof bases + fixed bases) is exactly a power of two, so nothing is padded:
         # ("poseidon_jubjub_p3", 1): 31 + 33 = 64; ("agg_test", 2): 2 x 40 + 48 = 128 (the driver logs the lengths)
-        plan = [("poseidon", 1), ("poseidon_jubjub_p3", 1), ("agg_test", 2), ("poseidon_sha256", 2), ("poseidon_secp256k1", 3), ("poseidon_jubjub", 3)]
+        plan = [("poseidon", 1), ("poseidon_jubjub_p3", 1), ("agg_test", 2), ("poseidon_sha256", 2), ("poseidon_secp256k1", 3), ("poseidon_jubjub", 3), ("plain", 2)]
         stride = 6
     else:
         plan = [(a, nb) for a in archs for nb in (1, 2, 3)]
